@@ -307,19 +307,19 @@ def run(tier, seed):
     res = Result("model_checking")
     counters = {"transitions": 0, "states": 0, "replayed": 0, "depth_done": {}}
     ops = alphabet()
-    bfs("empty", [], ops, 3 if tier == "quick" else 4, seed, res=res, counters=counters)
+    bfs("empty", [], ops, 3 if tier == "quick" else 5, seed, res=res, counters=counters)
     # deeper histories over a small alphabet of three valid compounds (adds and removes only)
     small = [("H2O", "O"), ("C2H6O", "CCO"), ("H4N+", "[NH4+]")]
     small_ops = [("add", f, s) for f, s in small] + [("remove", f) for f, _ in small] + [("bulk", small[0], small[1]), ("bulk", small[2], small[2])]
-    bfs("empty/add-remove", [], small_ops, 5 if tier == "quick" else 7, seed, res=res, counters=counters)
+    bfs("empty/add-remove", [], small_ops, 5 if tier == "quick" else 9, seed, res=res, counters=counters)
     # formulas that are the SMILES of another compound, and non-canonical SMILES written twice
     coll = [("H2O", "O"), ("O", "[O]"), ("CH4O", "CO"), ("CO", "[C-]#[O+]"), ("CH2O2", "C(=O)O"), ("Formic", "C(=O)O"),
             ("C6H6", "C1=CC=CC=C1"), ("Benzene", "C1=CC=CC=C1")]
     coll_ops = [("add", f, s2) for f, s2 in coll] + [("remove", f) for f in ("O", "CO", "H2O", "CH2O2", "C6H6")] + \
                [("bulk", coll[4], coll[5]), ("bulk", coll[6], coll[7]), ("bulk", coll[0], coll[1])]
-    bfs("empty/collisions", [], coll_ops, 3 if tier == "quick" else 4, seed, res=res, counters=counters)
+    bfs("empty/collisions", [], coll_ops, 3 if tier == "quick" else 5, seed, res=res, counters=counters)
     # all HISTORIES (not states) over the small alphabet on single objects
-    hdepth = 6 if tier == "quick" else 7
+    hdepth = 6 if tier == "quick" else 8
     hjobs = [{"init": [], "ops": [list(o) for o in small_ops[:6]], "prefix": [list(a), list(b)], "depth": hdepth}
              for a in small_ops[:6] for b in small_ops[:6]]
     hres = pmap("checks.c19:history_subtree", hjobs, chunk=1, seed=seed, timeout=7200)
@@ -362,7 +362,7 @@ def run(tier, seed):
         "rule": "BFS over ordered record lists; alphabet = add of 8 compounds (valid, invalid, same formula, same "
                 "SMILES, charged, salt, heavy element, empty string), add_entries of every ordered pair, remove of every "
                 "formula and an absent one; every transition executes the real method and is compared with a list model; "
-                "invariant evaluated in every state; additionally every operation sequence of length <= 6 (thorough 7) over 3 adds + 3 removes is executed on single objects",
+                "invariant evaluated in every state; additionally every operation sequence of length <= 6 (thorough 8) over 3 adds + 3 removes is executed on single objects",
         "exhaustive": True,
     }
     res.assumptions = ["a RuleImputeManager has no state besides its record list (checked by replaying every state's "
